@@ -712,9 +712,27 @@ func mk3(r *Rng, op string, depth int, scale float64, o genOpts) *node {
 		num := r.IR(1, 7)
 		ang := r.R(-1.5, 1.5)
 		step := sdf.RotateZ(ang)
+		stepDesc := fmt.Sprintf("RotateZ(%.4g)", ang)
+		switch r.IR(0, 3) { // the step is any matrix: screw motions (spiral stairs), tilts about other axes, plain shifts
+		case 0:
+			h := scale * r.R(-1, 1)
+			step = sdf.Translate3d(v3.Vec{Z: h}).Mul(sdf.RotateZ(ang))
+			stepDesc = fmt.Sprintf("T(0,0,%.3g)*RotateZ(%.4g)", h, ang)
+		case 1:
+			ax := v3.Vec{X: r.N(), Y: r.N(), Z: r.N()}
+			if ax.Length() > 1e-3 {
+				ax = ax.Normalize()
+				t := v3.Vec{X: scale * r.R(-1, 1), Y: scale * r.R(-1, 1), Z: scale * r.R(-1, 1)}
+				if r.P(0.5) {
+					t = v3.Vec{}
+				}
+				step = sdf.Translate3d(t).Mul(sdf.Rotate3d(ax, ang))
+				stepDesc = fmt.Sprintf("T(%.3g,%.3g,%.3g)*Rotate3d(%.3g,%.3g,%.3g;%.4g)", t.X, t.Y, t.Z, ax.X, ax.Y, ax.Z, ang)
+			}
+		}
 		s := sdf.RotateUnion3D(k.s3, num, step)
 		si := inv4(step)
-		n := wrap3(op, fmt.Sprintf("RotateUnion3D[%d x RotateZ(%.4g)]", num, ang), s, func(p v3.Vec) []float64 {
+		n := wrap3(op, fmt.Sprintf("RotateUnion3D[%d x %s]", num, stepDesc), s, func(p v3.Vec) []float64 {
 			var xs [][]float64
 			m := id4
 			for i := 0; i < num; i++ { // copy i is the operand moved by step^i
@@ -1259,8 +1277,14 @@ func mk2(r *Rng, op string, depth int, scale float64, o genOpts) *node {
 		num := r.IR(1, 7)
 		ang := r.R(-1.5, 1.5)
 		step := sdf.Rotate2d(ang)
+		stepDesc := fmt.Sprintf("Rotate2d(%.4g)", ang)
+		if r.P(0.35) { // a step that also shifts (a spiral of copies)
+			t := v2.Vec{X: scale * r.R(-1, 1), Y: scale * r.R(-1, 1)}
+			step = sdf.Translate2d(t).Mul(step)
+			stepDesc = fmt.Sprintf("T(%.3g,%.3g)*Rotate2d(%.4g)", t.X, t.Y, ang)
+		}
 		si := inv3(step)
-		n := wrap2(op, fmt.Sprintf("RotateUnion2D[%d x Rotate2d(%.4g)]", num, ang), sdf.RotateUnion2D(k.s2, num, step), func(p v2.Vec) []float64 {
+		n := wrap2(op, fmt.Sprintf("RotateUnion2D[%d x %s]", num, stepDesc), sdf.RotateUnion2D(k.s2, num, step), func(p v2.Vec) []float64 {
 			var xs [][]float64
 			m := id3
 			for i := 0; i < num; i++ {
